@@ -27,6 +27,7 @@ type (
 		mu              sync.Mutex
 		f               http.Flusher
 		keepAliveTicker *time.Ticker
+		closed          bool
 	}
 )
 
@@ -109,9 +110,11 @@ func (t SSE) Do(w http.ResponseWriter, r *http.Request, exec graphql.GraphExecut
 		go c.keepAlive(w)
 	}
 
+	// From here on the keep-alive goroutine may write to w as well: every
+	// write goes through c.write so that events are never interleaved.
 	if opErr != nil {
 		resp := exec.DispatchError(ctx, opErr)
-		writeJsonWithSSE(w, resp)
+		c.write(func() { writeJsonWithSSE(w, resp) })
 	} else {
 		responses, ctx := exec.DispatchOperation(ctx, rc)
 		for {
@@ -119,14 +122,36 @@ func (t SSE) Do(w http.ResponseWriter, r *http.Request, exec graphql.GraphExecut
 			if response == nil {
 				break
 			}
-			writeJsonWithSSE(w, response)
-			c.flush()
+			c.write(func() { writeJsonWithSSE(w, response) })
 
 			c.resetTicker(t.KeepAlivePingInterval)
 		}
 	}
 
-	fmt.Fprint(w, "event: complete\n\n")
+	c.write(func() { fmt.Fprint(w, "event: complete\n\n") })
+	c.close()
+}
+
+// write runs f, which writes one complete event, and flushes it, holding the
+// connection's lock so that the main loop and the keep-alive goroutine never
+// write concurrently.
+func (c *sseConnection) write(f func()) {
+	c.mu.Lock()
+	defer c.mu.Unlock()
+	if c.closed {
+		return
+	}
+	f()
+	c.f.Flush()
+}
+
+// close marks the stream as finished: a keep-alive tick that fires before the
+// request context is cancelled must not write after the complete event (or
+// touch the ResponseWriter after the handler returned).
+func (c *sseConnection) close() {
+	c.mu.Lock()
+	c.closed = true
+	c.mu.Unlock()
 }
 
 func (c *sseConnection) resetTicker(interval time.Duration) {
@@ -144,8 +169,7 @@ func (c *sseConnection) keepAlive(w io.Writer) {
 			c.keepAliveTicker.Stop()
 			return
 		case <-c.keepAliveTicker.C:
-			fmt.Fprintf(w, ": ping\n\n")
-			c.flush()
+			c.write(func() { fmt.Fprintf(w, ": ping\n\n") })
 		}
 	}
 }
